@@ -424,12 +424,21 @@ def run_point_scenario(p, wd):
             continue
         dx = pf.dx(lv)
         pt = [pf.geo_lo[d] + (lo[d] + cell[d] + 0.5) * dx[d] for d in range(3)]
+        if "held" not in locals():
+            held = {}
         fsel = rng.choice(fsels)
         comps, scalar = spec_fields(names, fsel)
         what = f"pck[{desc(fsel)}]({pt[0]!r}, {pt[1]!r}, {pt[2]!r})  (level {lv} box {b} cell {cell})"
         counter[0] += 1
         try:
-            got = np.atleast_1d(np.asarray(pck[fsel](*pt), dtype=float)).ravel()
+            # every second query goes through a selection object that is KEPT and re-used (an answer depends on the point, not on
+            # what the same object was asked before)
+            if counter[0] % 2 == 0:
+                sel = held.setdefault(desc(fsel), pck[fsel])
+                what += "  [selection object re-used]"
+            else:
+                sel = pck[fsel]
+            got = np.atleast_1d(np.asarray(sel(*pt), dtype=float)).ravel()
         except Exception as e:      # noqa
             fails.append({"what": "point query raised at an interior cell centre", "call": what,
                           "detail": f"{type(e).__name__}: {str(e)[:120]}"})
